@@ -42,12 +42,12 @@ func VerifGroupCursor(g *Group) int {
 
 // VerifGroupHost0 returns the first host of the entry at position i (identifies the configured
 // group the entry was built from) and its weight as stored.
-func VerifGroupHost0(g *Group, i int) (string, uint8) {
+func VerifGroupHost0(g *Group, i int) (string, int) {
 	p := g.entries[i]
 	if len(p.hosts) == 0 {
-		return "", p.weight
+		return "", int(p.weight) // int(): the shim must not depend on the field's integer type
 	}
-	return p.hosts[0], p.weight
+	return p.hosts[0], int(p.weight)
 }
 
 // VerifGroupSetConn replaces the connector of the entry at position i (recording connectors).
